@@ -110,6 +110,15 @@ func TestC13(t *testing.T) {
 		}
 	})
 
+	hb := htmlBoundaryInputs()
+	p = c.rec.NewPart("boundary_inputs", "length-, count- and code-point boundary inputs (see C07): contexts relation, and prefix relation with 4 prefixes", false, true, "")
+	c.ParRange(p, int64(len(hb)), func(w *Worker, i int64) {
+		w.Judge(ctxCase(hb[i]))
+		for j := int(i) % 5; j < len(c13Prefixes); j += 5 {
+			w.Judge(ev.Case{Kind: "prefix", In: hb[i], In2: c13Prefixes[j]})
+		}
+	})
+
 	g := gen.HTMLInput()
 	p = c.rec.NewPart("rapid_contexts", "rapid: fragment-grammar input / mutated vector / mutated fixture", true, false, "")
 	c.Rapid(p, 8, pick(80000, 900000), func(rt *rapid.T, sh int) ev.Case {
